@@ -62,6 +62,16 @@ package modifiers
 //@ loop 1
 //@   invariant forall k int :: old(len(ghost.evlog)) <= k && k < len(ghost.evlog) ==> !typeis(ghost.evlog[k], *events.ContactURNsChangedEvent)
 //@   invariant len(ghost.evlog) >= old(len(ghost.evlog))
+//@   invariant urnsOK(contact.urns)
+
+//@ func (m *ChannelModifier) Apply
+//@   implements flows.Modifier.Apply
+//@   requires m != nil && contact != nil
+//@   assigns contact.urns, flows.ContactURN::urn, flows.ContactURN::channel, effects(flows.EventCallback)
+//@   havocs NewErrorf
+//@   ensures [modified_iff_changed] result <==> !(len(contact.urns) == old(len(contact.urns)) && (forall k int :: 0 <= k && k < len(contact.urns) ==> contact.urns[k].urn == old(contact.urns[k].urn)))
+//@   ensures [event] result ==> (len(ghost.evlog) > old(len(ghost.evlog)) && typeis(last(ghost.evlog), *events.ContactURNsChangedEvent) && len(last(ghost.evlog).(*events.ContactURNsChangedEvent).URNs) == len(contact.urns) && (forall k int :: 0 <= k && k < len(contact.urns) ==> last(ghost.evlog).(*events.ContactURNsChangedEvent).URNs[k] == contact.urns[k].urn))
+//@   ensures [no_change_event] !result ==> (forall k int :: old(len(ghost.evlog)) <= k && k < len(ghost.evlog) ==> !typeis(ghost.evlog[k], *events.ContactURNsChangedEvent))
 
 // ---- C06: every effective modifier is followed by a re-evaluation of the query based groups; non-active
 // contacts leave all their groups; membership changes are announced by one contact_groups_changed event
@@ -81,7 +91,7 @@ package modifiers
 //@   invariant ghost.evlog == old(ghost.evlog)
 
 //@ func Apply
-//@   requires contactAssetsOK(c) && groupsOK(c.groups) && noDupUUIDs(c.groups.groups) && !isnil(mod)
+//@   requires contactAssetsOK(c) && groupsOK(c.groups) && noDupUUIDs(c.groups.groups) && urnsOK(c.urns) && !isnil(mod)
 //@   ensures [reevaluated] result ==> (groupsMatch(c, env) && (c.status != flows.ContactStatusActive ==> len(c.groups.groups) == 0))
 
 //@ func (m *TimezoneModifier) Apply
